@@ -307,7 +307,7 @@ class Engine:
     MODELLED = re.compile(r"(::len$|as Deref>::deref$|as DerefMut>::deref_mut$|as AsRef<.*>>::as_ref$|::as_slice$|::as_path$|cmp::min::|cmp::max::|"
                           r"::saturating_sub$|::saturating_add$|::max_value$|as Try>::branch$|as FromResidual<.*>>::from_residual$|as Iterator>::position::<|"
                           r"::iter$|as Index<.*>>::index$|as IntoIterator>::into_iter$|as Iterator>::enumerate$|as Iterator>::next$|as Partial(Eq|Ord)>::(eq|ne|ge|gt|le|lt)$|"
-                          r"Option::<\w+>::unwrap_or$|Option::<\w+>::unwrap_or_default$|Range<usize> as IntoIterator>::into_iter$|Range<usize> as Iterator>::next$)")
+                          r"Option::<\w+>::unwrap_or$|Option::<\w+>::unwrap_or_default$|Range<usize> as IntoIterator>::into_iter$|Range<usize> as Iterator>::next$|RangeInclusive::<usize>::new$|RangeInclusive<usize> as IntoIterator>::into_iter$)")
 
     def compute_tracked(self, seeds, extra_modelled=None):
         """Locals (and, for aggregates built once by an aggregate rvalue, individual fields) whose
@@ -1194,6 +1194,20 @@ class Engine:
             if z3.is_bv(s0) and z3.is_bv(e0):
                 more = z3.ULT(s0, e0)
                 st.store[r + ".0"] = z3.If(more, s0 + 1, s0)
+                return {"#disc": z3.If(more, z3.BitVecVal(1, 64), z3.BitVecVal(0, 64)), "@Some.0": s0}
+            return None
+        # ---- RangeInclusive<usize>: new / into_iter / next (start, end, exhausted)
+        if re.search(r"RangeInclusive::<usize>::new$", c) and len(argv) == 2 and z3.is_bv(argv[0][0]) and z3.is_bv(argv[1][0]):
+            return {"@ri.s": argv[0][0], "@ri.e": argv[1][0], "@ri.x": z3.BoolVal(False)}
+        if re.search(r"RangeInclusive<usize> as IntoIterator>::into_iter$", c) and argv and argv[0][1] is not None:
+            return ("copy", argv[0][1], argv[0][2])
+        if re.search(r"RangeInclusive<usize> as Iterator>::next$", c) and argv and isinstance(argv[0][0], Ref):
+            r = argv[0][0].target
+            s0, e0, x0 = st.store.get(r + "@ri.s"), st.store.get(r + "@ri.e"), st.store.get(r + "@ri.x")
+            if s0 is not None and e0 is not None and x0 is not None:
+                more = z3.And(z3.Not(x0), z3.ULE(s0, e0))
+                st.store[r + "@ri.x"] = z3.If(more, s0 == e0, x0)
+                st.store[r + "@ri.s"] = z3.If(z3.And(more, z3.ULT(s0, e0)), s0 + 1, s0)
                 return {"#disc": z3.If(more, z3.BitVecVal(1, 64), z3.BitVecVal(0, 64)), "@Some.0": s0}
             return None
         # ---- Try / FromResidual on Result / Option
